@@ -433,6 +433,7 @@ def run(ctx: Ctx) -> int:
         inputs.append(("pumped", scripts_pool.HEADER + decl + "led.on()  # " + body + "\nwhile True:\n    led.toggle()  # " + body + "\n", None))
     inputs.append(("python", scripts_pool.HEADER + "mon = SerialMonitor(9600)\nc = 1\nif c > 0:\n    al\u00e9 = 1\nmon.write(c)\n", None))
     inputs.append(("python", scripts_pool.HEADER + "mon = SerialMonitor(9600)\nwhile True:\n    mon.write(digital_read(7)\n              + analog_read(\"A1\"))\n", None))
+    inputs.append(("python", scripts_pool.HEADER + "mon = SerialMonitor(9600)\nmon.write(value=3)\n", None))      # K11g
     for v in VALID_PYTHON:
         inputs.append(("python", scripts_pool.HEADER + v, None))
     for p in sorted((common.SRC / "Reduino").rglob("*.py"))[:12]:
@@ -505,7 +506,13 @@ def run(ctx: Ctx) -> int:
                                 for t in tokenize.generate_tokens(io.StringIO(src).readline)) or "\\\n" in src
                 except Exception:  # noqa: BLE001
                     pass
-                suffix = ":non-ascii-source" if nonascii else (":statement-spans-lines" if spans else "")
+                kwcall = False      # a keyword argument to `sleep(...)` / `<monitor>.write(...)`: the argument TEXT `value=3` is handed to ast.parse(mode="eval")
+                try:
+                    kwcall = any(isinstance(nd, ast.Call) and nd.keywords and ((isinstance(nd.func, ast.Name) and nd.func.id == "sleep") or (isinstance(nd.func, ast.Attribute) and nd.func.attr == "write"))
+                                 for nd in ast.walk(ast.parse(src)))
+                except Exception:  # noqa: BLE001
+                    pass
+                suffix = ":non-ascii-source" if nonascii else (":statement-spans-lines" if spans else (":keyword-argument-to-write-or-sleep" if kwcall else ""))
                 ctx.fail("clean-failure:SyntaxError-for-valid-python" + suffix, "SyntaxError raised for text that IS Python", replay)
         elif o == "returns" and kind in ("noise", "mutated", "python"):
             try:
